@@ -22,6 +22,7 @@
 package c08
 
 import (
+	"os"
 	"crypto/sha256"
 	"fmt"
 	"runtime/debug"
@@ -422,6 +423,10 @@ func run(r *core.Run) {
 	// few hundred transitions.  Trade memory for CPU, with a hard ceiling.
 	defer debug.SetGCPercent(debug.SetGCPercent(250))
 	defer debug.SetMemoryLimit(debug.SetMemoryLimit(3 << 30))
+	if os.Getenv("VERIF_C08_ONLY") == "defshadow" {
+		runDefShadow(r)
+		return
+	}
 	ops := alphabet(r.Thorough())
 	e := &explorer{r: r, ops: ops, opIndex: map[string]int{}}
 	for i, o := range ops {
@@ -525,7 +530,7 @@ func run(r *core.Run) {
 	r.Assume("UNSPECIFIED Z2: whether an attempt to bind true/false/:k is an error or is silently ineffective; asserted: the result never shows the rebinding, no table gains a name, the current package stays")
 	r.Assume("after any call returns or fails the package that was current before it is current again; ignore-errors answers nil for an absorbed error, handler-bind with the catch-all clause answers its handler's value (docs of both operators)")
 	r.Assume("an import (use-package, or the creation of a package over the language package) copies the values current at that moment, however they came to be current: set, set! at top level or inside a function of the exporting package, qualified set, defun/defmacro redefinition")
-	r.Assume("in-package inside a FUNCTION body, set! on a qualified name, rebinding names of the language package, and exporting names of the language package are outside the alphabet (the statement does not speak about them)")
+	r.Assume("in-package inside a FUNCTION body, set! on a qualified name, and exporting names of the language package are outside the alphabet (the statement does not speak about them); what a program that rebinds a name of the language package means OTHERWISE is outside it too, with one exception the statement does cover: a definition by set / defun / defmacro still binds its name in the current package when the package or the scope around it gives another meaning to any OTHER language name (def-under-rebound-language-name family: every exported language name x 9 ways of rebinding it x 3 definition forms, judged by reading the registry)")
 	r.Assume("a source given to load-string / load-bytes / load-file is a separate program text ('Parses and evaluates source-code as ELPS source', 'Loads and evaluates the ELPS source file': the builtins' docstrings): lexically it stands inside nothing, so an unqualified name in it has no lexical binding to resolve to and goes to the current package; the comment in the three builtins says the same ('the loaded code does not share the current lexical environment')")
 	r.Assume("canonical state = current package + for every model package its export list and every non-base binding (integers by value; functions by kind, defining package, parameter list, body text and captured lexical bindings). Function identity (which bindings share one function object) is checked against the model in every state but is not part of the key: two functions with equal descriptions are observationally equal for every operation of the alphabet")
 
@@ -589,6 +594,9 @@ func run(r *core.Run) {
 			e.program(frontier[i].hist)
 		})
 	}
+	if !r.Expired() {
+		runDefShadow(r)
+	}
 	r.AddStates(int64(len(seen)))
 	r.AddEvals(atomic.LoadInt64(&e.evals))
 	r.Extra("max_depth_completed", maxDepth)
@@ -611,6 +619,9 @@ func replay(v core.Violation) (bool, string) {
 	k, err := core.CaseOf[kase](v)
 	if err != nil {
 		return false, err.Error()
+	}
+	if k.Mode == "defshadow" {
+		return replayDefShadow(k)
 	}
 	res := runCase(k)
 	var b strings.Builder
